@@ -46,20 +46,30 @@ fn ser_s(s: &ASetFile) -> String {
 }
 
 fn parse_s(f: &[u8]) -> String {
+    parse_m(f).0
+}
+
+/// parse + the largest single allocation request made during BinArchive::from_bytes and ASetFile::from_archive
+/// (counting allocator; showing and re-serializing the value are outside the window)
+fn parse_m(f: &[u8]) -> (String, usize) {
+    crate::h_alloc::reset();
     let archive = BinArchive::from_bytes(f, Endian::Little);
+    let parsed = archive.as_ref().ok().map(|a| ASetFile::from_archive(a));
+    let mx = crate::h_alloc::max_request();
     let mut prefix = "";
     if let Ok(a) = &archive {
-        // the table label on more than one address: find_label_address depends on the hash state
+        // the table label on more than one address (since fix 10408e9 the lowest address wins on both sides)
         let mut hits: Vec<usize> = a.all_labels().into_iter().filter(|(_, n)| n == "AnimClipNameTable").map(|(k, _)| k).collect();
         hits.dedup();
         if hits.len() > 1 {
             prefix = "amb ";
         }
     }
-    match archive.and_then(|a| ASetFile::from_archive(&a)) {
-        Ok(s) => format!("{}re=ok:{} | ser2={}", prefix, show_aset(&s), ser_s(&s)),
-        Err(_) => format!("{}re=err", prefix),
-    }
+    let line = match parsed {
+        Some(Ok(s)) => format!("{}re=ok:{} | ser2={}", prefix, show_aset(&s), ser_s(&s)),
+        _ => format!("{}re=err", prefix),
+    };
+    (line, mx)
 }
 
 pub fn run(toks: &[&str]) -> String {
@@ -80,6 +90,10 @@ pub fn run(toks: &[&str]) -> String {
             }
         }
         "p" => parse_s(&parse_b(toks[1])),
+        "q" => {
+            let (line, mx) = parse_m(&parse_b(toks[1]));
+            format!("{} maxalloc={}", line, mx)
+        }
         x => panic!("aset: bad mode {}", x),
     }
 }
